@@ -79,6 +79,7 @@ PROPS["C04"] = dict(
         stage("lengths"),
         stage("huge", only="thorough", workers=2),
         stage("bounded"),
+        stage("bytes"),
         stage("random", kind="rc", quick=4000, thorough=300000, max_size=100),
     ],
     rule="Domains: all strings of length <= 7 (quick) / <= 10 (thorough) over {a 1 - . _ !}; every label length 0-300 in first/middle/last position "
